@@ -80,7 +80,7 @@ theorem eagerLines_split (rows : List α) (limit : Nat) (hl : 0 < limit)
       = labelFrom 1 (rows.take limit) ++ [Line.ellipsis]
         ++ labelFrom (limit + (rows.length - 2 * limit) + 1) (rows.drop (rows.length - limit)) := by
   have hcut : eagerCut specArith rows limit true = rows.take limit ++ rows.drop (rows.length - limit) := by
-    simp only [eagerCut, spec_headTail]
+    simp only [eagerCut, spec_headTail, spec_eagerHeadSize, spec_eagerTailSize, spec_eagerSliceLen]
     rw [if_neg (by simp), if_pos ⟨hl, trivial⟩, if_pos (by omega), dfHead_eq _ _ hl, dfTail_eq _ _ hl (by omega)]
   have hlen : (rows.take limit ++ rows.drop (rows.length - limit)).length = 2 * limit := by
     simp [List.length_take, List.length_drop]; omega
@@ -174,14 +174,15 @@ theorem lazySelect_tt (rows : List α) (limit : Nat) (hl : 0 < limit) :
       = (rows.take limit ++ (rows.drop limit).drop ((rows.drop limit).length - limit),
          ((rows.drop limit).length - 1) + (rows.take limit).length + 1) := by
   simp only [lazySelect]
+  rw [show specArith.lazyHeadTake limit = limit from rfl, show specArith.dequeMax limit = limit from rfl]
   rw [if_neg (by simp), if_pos ⟨hl, trivial⟩, foldl_dequePush _ _ _ (by simp)]
   simp only [spec_lazyLenInit, spec_lazyLenUpd, List.nil_append, Prod.mk.injEq, true_and]
-  split
-  · rename_i he
+  by_cases he : (List.drop limit rows).isEmpty = true
+  · rw [if_pos he]
     have : (rows.drop limit).length = 0 := by
       rw [List.isEmpty_iff] at he; rw [he]; rfl
     omega
-  · omega
+  · rw [if_neg he]; omega
 
 end Display
 
@@ -260,7 +261,7 @@ theorem lazyLines_tt (rows : List α) (limit : Nat) (hl : 0 < limit) :
 
 theorem lazyLines_head (rows : List α) (limit : Nat) (hl : 0 < limit) :
     lazyLines specArith rows limit false = labelFrom 1 (rows.take limit) := by
-  simp only [lazyLines, lazySelect]
+  simp only [lazyLines, lazySelect, spec_lazyHeadOnlyTake, spec_lazyHeadTake, spec_dequeMax]
   rw [if_pos ⟨hl, trivial⟩]
   simp only [spec_lazyOffset0]
   rw [lazyGo_before _ _ _ _ _ (by simp [List.length_take]; omega)]
@@ -268,7 +269,7 @@ theorem lazyLines_head (rows : List α) (limit : Nat) (hl : 0 < limit) :
 theorem eagerLines_small (rows : List α) (limit : Nat) (hl : 0 < limit)
     (hn : rows.length ≤ 2 * limit) : eagerLines specArith rows limit true = labelFrom 1 rows := by
   have hcut : eagerCut specArith rows limit true = rows := by
-    simp only [eagerCut, spec_headTail]
+    simp only [eagerCut, spec_headTail, spec_eagerHeadSize, spec_eagerTailSize, spec_eagerSliceLen]
     rw [if_neg (by simp), if_pos ⟨hl, trivial⟩, if_neg (by omega)]
   simp only [eagerLines, hcut]
   rw [eagerGo_plain _ _ _ _ (by omega)]
@@ -276,7 +277,7 @@ theorem eagerLines_small (rows : List α) (limit : Nat) (hl : 0 < limit)
 theorem eagerLines_head (rows : List α) (limit : Nat) (hl : 0 < limit) :
     eagerLines specArith rows limit false = labelFrom 1 (rows.take limit) := by
   have hcut : eagerCut specArith rows limit false = rows.take limit := by
-    simp only [eagerCut]
+    simp only [eagerCut, spec_eagerSliceLen]
     rw [if_pos ⟨hl, trivial⟩]
     exact dfHead_eq rows limit hl
   simp only [eagerLines, hcut]
